@@ -114,8 +114,8 @@ Qed.
 Lemma cfg_facts : forall c, cfg_okb c = true ->
   1 <= nwords c /\ nwords c <= 2 ^ c_posw c /\ 1 <= c_bpw c /\ 1 <= c_lwb c /\ c_lwb c <= c_bpw c /\
   (c_vw c = 1 \/ c_vw c = c_bpw c) /\ c_dlen c = (nwords c - 1) * c_bpw c + c_lwb c /\
-  c_dlen c <= 2 ^ c_spw c /\ c_bpw c < 2 ^ c_mlw c.
-Proof. intros c Hc. unfold cfg_okb in Hc. unfold nwords. lia. Qed.
+  c_dlen c <= 2 ^ c_spw c /\ (c_hasml c = true -> c_bpw c < 2 ^ c_mlw c).
+Proof. intros c Hc. unfold cfg_okb in Hc. unfold nwords. destruct (c_hasml c); cbn [negb orb] in Hc; repeat split; try lia; discriminate. Qed.
 
 (* ---------------------------------------------------------------------------------------------- *)
 (* the model refines the specification machine (variant with max_length, as used throughout LUNA) *)
@@ -144,7 +144,8 @@ Section Refine.
     cg_out c st i = sp_out c s /\ rel (cg_next c st i) (sp_next c s i).
   Proof.
     intros [f pos sent ml rd] s i HR HE.
-    destruct (cfg_facts c Hc) as (HL1 & HL2 & Hb & Hl1 & Hl2 & Hv & Hd & Hsp & Hbm).
+    destruct (cfg_facts c Hc) as (HL1 & HL2 & Hb & Hl1 & Hl2 & Hv & Hd & Hsp & Hbm0).
+    pose proof (Hbm0 Hml) as Hbm.
     unfold rel in HR. cbn [g_fsm g_pos g_sent g_ml g_rd] in HR.
     destruct f, s as [ml0 | bs ml0 sp | ml0]; try contradiction.
     - (* IDLE *)
@@ -342,4 +343,40 @@ Lemma zero_limit_ignored : forall c ml0 i, i_ml c i = 0 ->
   sp_next c (SpIdle ml0) i = SpIdle 0 /\ sp_out c (SpIdle ml0) = pack_quiet c false ml0.
 Proof.
   intros c ml0 i H. unfold sp_next. rewrite H. rewrite andb_false_r. split; reflexivity.
+Qed.
+
+(* ---------------------------------------------------------------------------------------------- *)
+(* Byte-wide generators (USB2 descriptors): the answer is literally the requested slice of the bytes *)
+Lemma total_bytes_app : forall a b, total_bytes (a ++ b) = total_bytes a + total_bytes b.
+Proof. induction a as [|x a IH]; intros b; [reflexivity|]. cbn [app total_bytes fold_right].
+  fold (total_bytes (a ++ b)). fold (total_bytes a). rewrite IH. lia. Qed.
+
+Lemma total_bytes_ones : forall l, Forall (fun b => b_bytes b = 1) l -> total_bytes l = N.of_nat (length l).
+Proof.
+  induction l as [|x l IH]; intros H; [reflexivity|]. apply Forall_cons_iff in H. destruct H as [Hx Hl].
+  cbn [total_bytes fold_right length]. fold (total_bytes l). rewrite IH by exact Hl. rewrite Hx. lia.
+Qed.
+
+Theorem answer_bytewide : forall c, cfg_okb c = true -> c_bpw c = 1 -> forall sp ml, sp < nwords c -> 0 < ml ->
+  map b_payload (answer c sp ml) =
+  firstn (N.to_nat (N.min ml (nwords c - sp))) (skipn (N.to_nat sp) (c_words c)).
+Proof.
+  intros c Hc Hb1 sp ml Hsp Hml.
+  destruct (answer_spec c Hc sp ml Hsp Hml) as (P1 & P2 & (init & fin & E & HF & _ & F1 & F2) & _).
+  destruct (cfg_facts c Hc) as (HL1 & HL2 & Hb & Hl1 & Hl2 & Hv & Hd & Hspw & Hbm).
+  rewrite P1. f_equal.
+  assert (Hall : Forall (fun b => b_bytes b = 1) (answer c sp ml)).
+  { rewrite E. apply Forall_app. split.
+    - eapply Forall_impl; [|exact HF]. intros b [_ Hbb]. rewrite Hbb. exact Hb1.
+    - constructor; [lia | constructor]. }
+  pose proof (total_bytes_ones _ Hall) as T. rewrite P2 in T. nia.
+Qed.
+
+Lemma chunks_one : forall data, chunks (length data) 1 data = map (fun b => [b]) data.
+Proof. induction data as [|b t IH]; [reflexivity|]. cbn [length chunks firstn skipn map]. rewrite IH. reflexivity. Qed.
+
+Lemma cfg_of_bytes_bytewide_words : forall data mlw, c_words (cfg_of_bytes data 1 false mlw) = data.
+Proof.
+  intros. unfold cfg_of_bytes. cbn [c_words]. rewrite chunks_one, map_map.
+  rewrite <- (map_id data) at 2. apply map_ext. intros b. cbn [word_le]. lia.
 Qed.
